@@ -113,6 +113,10 @@ func (c *Check) Execute(t Tier) int {
 	if ev.Level == "" {
 		ev.Level = "model_checking"
 	}
+	if ev.Assumptions == nil {
+		ev.Assumptions = []string{}
+	}
+	ev.Assumptions = append(ev.Assumptions, "bounded: every history over the listed alphabet up to the reported depth and caps; nothing beyond", "trusted: Go toolchain, Cosmos-SDK 0.47.13 / IAVL / cometbft-db substrate, secp256k1 signing, the reference models under /verif/model")
 	var all []Violation
 	var scen []Stats
 	states, trans, replayed, evals := 0, 0, 0, 0
